@@ -31,6 +31,7 @@ var (
 	fInputs  = flag.String("sim.inputs", "", "comma separated list of worker output prefixes (merge)")
 	fCoarse  = flag.String("sim.coarse", "", "on: pre-empt tasks at operation boundaries only (fallback when the code under test blocks for real)")
 	fPrelude = flag.Int("sim.prelude", 0, "record: also execute and record this many preceding runs of the same worker (indices idx-k*stride)")
+	fScale   = flag.Int("sim.scale", 1, "multiplier of the generators' size bounds")
 	fOrder   = flag.String("sim.order", "", "override C19 phase order: conc-first | ref-first")
 )
 
@@ -128,6 +129,7 @@ func TestSim(t *testing.T) {
 		t.Skip("no -sim.mode")
 	}
 	CoarseMode = *fCoarse == "on"
+	Scale = max(1, *fScale)
 	loadSites()
 	switch *fMode {
 	case "batch":
